@@ -189,8 +189,10 @@ class BoundingBox:
         ymin = self.iymin
         ymax = self.iymax
 
-        if xmin >= shape[1] or ymin >= shape[0] or xmax <= 0 or ymax <= 0:
+        if (xmin >= shape[1] or ymin >= shape[0] or xmax <= 0 or ymax <= 0
+                or shape[0] <= 0 or shape[1] <= 0):
             # no overlap of the bounding box with the input shape
+            # (a zero-size array has no pixels to overlap with)
             return None, None
 
         slices_large = (slice(max(ymin, 0), min(ymax, shape[0])),
